@@ -288,26 +288,28 @@ fn fam_stake(r: &mut Rng) -> Result<(), String> {
         }
         Ok(resp) => {
             if !should_ok { return Err(format!("LiquidStake accepted although it must be refused (mint would be {m}); {ctx}")); }
+            let mut errs: Vec<String> = vec![];
             let st = STATE.load(&deps.storage).unwrap();
-            if st.total_native_token.u128() != tn0 + amount { return Err(format!("staked total {} != {} ; {ctx}", st.total_native_token, tn0 + amount)); }
-            if st.total_liquid_stake_token.u128() != s.tl + m { return Err(format!("LST total {} != {} ; {ctx}", st.total_liquid_stake_token, s.tl + m)); }
+            if st.total_native_token.u128() != tn0 + amount { errs.push(format!("staked total {} != {} ; {ctx}", st.total_native_token, tn0 + amount)); }
+            if st.total_liquid_stake_token.u128() != s.tl + m { errs.push(format!("LST total {} != {} ; {ctx}", st.total_liquid_stake_token, s.tl + m)); }
             let fees = if swept { s.fees + s.tn } else { s.fees };
-            if st.total_fees.u128() != fees { return Err(format!("fees {} != {fees}; {ctx}", st.total_fees)); }
-            if st.total_reward_amount != before.total_reward_amount { return Err(format!("reward counter changed; {ctx}")); }
+            if st.total_fees.u128() != fees { errs.push(format!("fees {} != {fees}; {ctx}", st.total_fees)); }
+            if st.total_reward_amount != before.total_reward_amount { errs.push(format!("reward counter changed; {ctx}")); }
             let sent = decode(&resp);
             let mints: Vec<_> = sent.iter().filter_map(|x| if let Sent::Mint { amount, .. } = x { Some(amount.clone()) } else { None }).collect();
-            if mints != vec![m.to_string()] { return Err(format!("mint messages {mints:?}, expected exactly one of {m}; {ctx}")); }
+            if mints != vec![m.to_string()] { errs.push(format!("mint messages {mints:?}, expected exactly one of {m}; {ctx}")); }
             let to_staker: Vec<_> = sent.iter().filter_map(|x| if let Sent::Transfer { amount, denom, receiver, .. } = x { if receiver == STAKER { Some((amount.clone(), denom.clone())) } else { None } } else { None }).collect();
-            if to_staker != vec![(amount.to_string(), IBC_DENOM.to_string())] { return Err(format!("transfers to the staker {to_staker:?}, expected one of {amount} staked asset; {ctx}")); }
+            if to_staker != vec![(amount.to_string(), IBC_DENOM.to_string())] { errs.push(format!("transfers to the staker {to_staker:?}, expected one of {amount} staked asset; {ctx}")); }
             let rcpt = mint_to.clone().unwrap_or(USER.to_string());
             let lst_out: Vec<String> = sent.iter().filter_map(|x| match x {
                 Sent::Send { amount, to, denom } if denom.starts_with("factory/") => Some(format!("send {amount} to {to}")),
                 Sent::Transfer { amount, receiver, denom, .. } if denom.starts_with("factory/") => Some(format!("ibc {amount} to {receiver}")),
                 _ => None }).collect();
             let want = if native { format!("ibc {m} to {rcpt}") } else { format!("send {m} to {rcpt}") };
-            if lst_out != vec![want.clone()] { return Err(format!("LST delivery {lst_out:?}, expected [{want}]; {ctx}")); }
-            check_oracle(&s, &sent, &deps).map_err(|e| format!("{e}; {ctx}"))?;
-            check_state_query(&deps).map_err(|e| format!("{e}; {ctx}"))?;
+            if lst_out != vec![want.clone()] { errs.push(format!("LST delivery {lst_out:?}, expected [{want}]; {ctx}")); }
+            if let Err(e) = check_oracle(&s, &sent, &deps) { errs.push(format!("{e}; {ctx}")); }
+            if let Err(e) = check_state_query(&deps) { errs.push(format!("{e}; {ctx}")); }
+            if !errs.is_empty() { return Err(errs.join(" || ")); }
         }
     }
     Ok(())
@@ -348,19 +350,21 @@ fn fam_rewards(r: &mut Rng) -> Result<(), String> {
             if wrong_sender { return Err(format!("ReceiveRewards accepted from {sender}, which is not the ibc-hooks account of the reward collector; {ctx}")); }
             if s.tl == 0 { return Err(format!("ReceiveRewards accepted while no LST exists; {ctx}")); }
             if !should_ok { return Err(format!("ReceiveRewards accepted although the fee exceeds the reward; {ctx}")); }
+            let mut errs: Vec<String> = vec![];
             let fee = fee.unwrap();
             let st = STATE.load(&deps.storage).unwrap();
-            if st.total_native_token.u128() != s.tn + (amount - fee) { return Err(format!("staked total {} != {}; {ctx}", st.total_native_token, s.tn + amount - fee)); }
+            if st.total_native_token.u128() != s.tn + (amount - fee) { errs.push(format!("staked total {} != {}; {ctx}", st.total_native_token, s.tn + amount - fee)); }
             let fees = if s.treasury { s.fees } else { s.fees + fee };
-            if st.total_fees.u128() != fees { return Err(format!("retained fees {} != {fees}; {ctx}", st.total_fees)); }
-            if st.total_reward_amount.u128() != s.rewards0 + amount { return Err(format!("reward counter {} != {}; {ctx}", st.total_reward_amount, s.rewards0 + amount)); }
+            if st.total_fees.u128() != fees { errs.push(format!("retained fees {} != {fees}; {ctx}", st.total_fees)); }
+            if st.total_reward_amount.u128() != s.rewards0 + amount { errs.push(format!("reward counter {} != {}; {ctx}", st.total_reward_amount, s.rewards0 + amount)); }
             let sent = decode(&resp);
             let to_staker: Vec<_> = sent.iter().filter_map(|x| if let Sent::Transfer { amount, receiver, .. } = x { Some((amount.clone(), receiver.clone())) } else { None }).collect();
-            if to_staker != vec![((amount - fee).to_string(), STAKER.to_string())] { return Err(format!("restake transfers {to_staker:?}, expected {} to the staker; {ctx}", amount - fee)); }
+            if to_staker != vec![((amount - fee).to_string(), STAKER.to_string())] { errs.push(format!("restake transfers {to_staker:?}, expected {} to the staker; {ctx}", amount - fee)); }
             let bank: Vec<_> = sent.iter().filter_map(|x| if let Sent::BankSend { amount, to, .. } = x { Some((*amount, to.clone())) } else { None }).collect();
             let want = if s.treasury { vec![(fee, USER2.to_string())] } else { vec![] };
-            if bank != want { return Err(format!("treasury payments {bank:?}, expected {want:?}; {ctx}")); }
-            check_oracle(&s, &sent, &deps).map_err(|e| format!("{e}; {ctx}"))?;
+            if bank != want { errs.push(format!("treasury payments {bank:?}, expected {want:?}; {ctx}")); }
+            if let Err(e) = check_oracle(&s, &sent, &deps) { errs.push(format!("{e}; {ctx}")); }
+            if !errs.is_empty() { return Err(errs.join(" || ")); }
         }
     }
     Ok(())
@@ -396,18 +400,20 @@ fn fam_batch(r: &mut Rng) -> Result<(), String> {
     if execute(deps.as_mut(), env_at(due - 1), mock_info(USER2, &[]), ExecuteMsg::SubmitBatch {}).is_ok() { return Err(format!("SubmitBatch succeeded one second before the batch period elapsed; {ctx}")); }
     let late = r.pick(&[0u64, 1, 86_400, 100_000]);
     let resp = execute(deps.as_mut(), env_at(due + late), mock_info(USER2, &[]), ExecuteMsg::SubmitBatch {}).map_err(|e| format!("SubmitBatch refused at/after the deadline: {e}; {ctx}"))?;
+    let mut errs: Vec<String> = vec![];
     let u = muldiv(s.tn, total, s.tl).unwrap();
     let st = STATE.load(&deps.storage).unwrap();
-    if st.total_native_token.u128() != s.tn - u || st.total_liquid_stake_token.u128() != s.tl - total { return Err(format!("totals after submit {} / {} expected {} / {}; {ctx}", st.total_native_token, st.total_liquid_stake_token, s.tn - u, s.tl - total)); }
+    if st.total_native_token.u128() != s.tn - u || st.total_liquid_stake_token.u128() != s.tl - total { errs.push(format!("totals after submit {} / {} expected {} / {}; {ctx}", st.total_native_token, st.total_liquid_stake_token, s.tn - u, s.tl - total)); }
     let sent = decode(&resp);
     let burns: Vec<_> = sent.iter().filter_map(|x| if let Sent::Burn { amount, .. } = x { Some(amount.clone()) } else { None }).collect();
-    if burns != vec![total.to_string()] { return Err(format!("burn messages {burns:?}, expected {total}; {ctx}")); }
-    check_oracle(&s, &sent, &deps).map_err(|e| format!("{e} (SubmitBatch); {ctx}"))?;
+    if burns != vec![total.to_string()] { errs.push(format!("burn messages {burns:?}, expected {total}; {ctx}")); }
+    if let Err(e) = check_oracle(&s, &sent, &deps) { errs.push(format!("{e} (SubmitBatch); {ctx}")); }
     let b1 = BATCHES.load(&deps.storage, 1).unwrap();
-    if b1.expected_native_unstaked != Some(Uint128::new(u)) { return Err(format!("expected amount {:?} != {u}; {ctx}", b1.expected_native_unstaked)); }
+    if b1.expected_native_unstaked != Some(Uint128::new(u)) { errs.push(format!("expected amount {:?} != {u}; {ctx}", b1.expected_native_unstaked)); }
     let p = PENDING_BATCH_ID.load(&deps.storage).unwrap();
     let nb = BATCHES.load(&deps.storage, p).unwrap();
-    if p != 2 || nb.next_batch_action_time != Some(due + late + 86_400) { return Err(format!("new pending batch {p} due {:?}, expected id 2 due {}; {ctx}", nb.next_batch_action_time, due + late + 86_400)); }
+    if p != 2 || nb.next_batch_action_time != Some(due + late + 86_400) { errs.push(format!("new pending batch {p} due {:?}, expected id 2 due {}; {ctx}", nb.next_batch_action_time, due + late + 86_400)); }
+    if !errs.is_empty() { return Err(errs.join(" || ")); }
     check_state_query(&deps).map_err(|e| format!("{e} (after SubmitBatch); {ctx}"))?;
     let unb = due + late + 1_209_600;
     if b1.next_batch_action_time != Some(unb) { return Err(format!("submitted batch becomes receivable at {:?}, expected one unbonding period after submission ({unb}); {ctx}", b1.next_batch_action_time)); }
@@ -904,6 +910,14 @@ const TAGS: &[(&str, &str)] = &[
 
 fn tags_for(msg: &str) -> Vec<&'static str> {
     let mut out: Vec<&'static str> = vec![];
+    for part in msg.split(" || ") {
+        for t in tags_for1(part) { if !out.contains(&t) { out.push(t); } }
+    }
+    out
+}
+
+fn tags_for1(msg: &str) -> Vec<&'static str> {
+    let mut out: Vec<&'static str> = vec![];
     // treasury ownership messages mention AcceptOwnership etc. and are tagged C12 by the same rows
     for (k, t) in TAGS {
         if msg.contains(k) {
@@ -1179,6 +1193,8 @@ fn run_family(f: &str, r: &mut Rng) -> Result<(), String> {
 
 const FAMILIES: [&str; 13] = ["queries", "stake", "rewards", "batch", "auth", "ownership", "fee_withdraw", "validation", "recover", "treasury", "treasury_ownership", "halt", "config"];
 
+thread_local! { static PANIC_AT: std::cell::RefCell<String> = std::cell::RefCell::new(String::new()); }
+
 fn one(f: &str, seed: u64, case: u64) -> Result<(), String> {
     let mut r = Rng(seed.wrapping_mul(0x9E3779B97F4A7C15) ^ (case + 1).wrapping_mul(0xD1B54A32D192ED03) | 1);
     let f2 = f.to_string();
@@ -1186,13 +1202,22 @@ fn one(f: &str, seed: u64, case: u64) -> Result<(), String> {
         Ok(x) => x,
         Err(p) => {
             let msg = p.downcast_ref::<String>().cloned().or_else(|| p.downcast_ref::<&str>().map(|s| s.to_string())).unwrap_or_default();
-            Err(format!("the real code PANICKED: {msg}"))
+            let at = PANIC_AT.with(|p| p.borrow().clone());
+            if at.starts_with("src/main.rs") {
+                // a panic of the driver itself (an unwrap on a state the changed code did not produce) is not a witness
+                Err(format!("driver stopped at {at}: {msg}"))
+            } else {
+                Err(format!("the real code PANICKED at {at}: {msg}"))
+            }
         }
     }
 }
 
 fn main() {
-    std::panic::set_hook(Box::new(|_| {}));
+    std::panic::set_hook(Box::new(|info| {
+        let loc = info.location().map(|l| format!("{}:{}", l.file(), l.line())).unwrap_or_default();
+        PANIC_AT.with(|p| *p.borrow_mut() = loc);
+    }));
     let a: Vec<String> = std::env::args().collect();
     if a.len() < 5 {
         eprintln!("usage: vreplay search <family|all> <seed> <cases> [property] | vreplay rerun <family> <seed> <case>");
